@@ -184,6 +184,53 @@ def handle (st : DState) (ws : List String) : String × DState :=
       let (c, v, _) := run cfg 120 (unhex hex)
       let (c2, v2, _) := MD.run {} 120 .all (MD.ser v)
       pure s!"{showCode c} {showVal v} {showCode c2} {showVal v2}"
+  | ["conv", cfgs, spec] =>
+      match docOfSpec spec with
+      | none => pure "bad-doc"
+      | some v =>
+        let cfg := cfgOfBits cfgs.toNat!
+        let names := ["i8", "u8", "i16", "u16", "i32", "u32", "i64", "u64"]
+        let ints := (names.zip Conv.allIT).map (fun (n, t) => match Conv.asInt cfg v t with | some z => s!"{n}={z}" | none => s!"{n}=UB")
+        let f := match Conv.asFloatBits cfg v SF.b32 with | some b => hexNat b 8 | none => "UB"
+        let d := match Conv.asFloatBits cfg v SF.b64 with | some b => hexNat b 16 | none => "UB"
+        let isb := String.join ((Conv.allIT.map (fun t => if Conv.isIntV v t then "1" else "0")) ++ [if Conv.isFloatV v then "1" else "0", if Conv.isFloatV v then "1" else "0"])
+        pure (" ".intercalate ints ++ s!" f={f} d={d} is={isb}")
+  | ["cmp", sa, sb] =>
+      let va := if sa == "?" then some Val.null else docOfSpec sa
+      let vb := if sb == "?" then some Val.null else docOfSpec sb
+      match va, vb with
+      | some a, some b =>
+        let bits (l : List Bool) := String.join (l.map (fun x => if x then "1" else "0"))
+        pure s!"{bits (Cmp.variantOps a b)} {bits (Cmp.variantOps b a)}"
+      | _, _ => pure "bad-doc"
+  | ["cmps", sa, sc] =>
+      match docOfSpec sa with
+      | none => pure "bad-doc"
+      | some a =>
+        let kind := (sc.splitOn ":").headD ""
+        let val := ((sc.splitOn ":").drop 1).headD ""
+        let small := kind == "i32" || kind == "i16"
+        let sc? : Option Cmp.Scalar :=
+          if kind == "i64" || small then
+            let v := val.toInt!
+            -- a narrower signed right operand is converted to the (unsigned) type of the left one
+            some (.num (.i v))
+          else if kind == "u64" then some (.num (.u val.toNat!))
+          else if kind == "u32" || kind == "u16" then some (.num (.u val.toNat!))
+          else if kind == "b" then some (.num (.b (val == "1")))
+          else if kind == "d" then some (.num (.d (hexToNat val.toList)))
+          else if kind == "f" then some (.num (.d (cvt SF.b32 SF.b64 (hexToNat val.toList))))
+          else if kind == "s" then some (.str (unhex val))
+          else if kind == "cs" then some (.str (cutNul (unhex val)))
+          else none
+        match sc? with
+        | none => pure "bad-kind"
+        | some x =>
+          let r := Cmp.compareScalar a x
+          let b (x : Bool) := if x then "1" else "0"
+          let fwd := String.join ((Cmp.ops r).map b)
+          let rev := String.join ((Cmp.opsRev r).map b)
+          pure s!"{fwd} {rev}"
   | ["stream", cfgs, lim, _chunk, hex] =>
       pure (streamLoop (fun bs => run (cfgOfBits cfgs.toNat!) lim.toNat! bs) (unhex hex) 0 40 "")
   | ["depth", fmt, cfgs, lim, fhex, hex] =>
